@@ -1,18 +1,14 @@
-"""Per-property configuration for bin/check."""
+"""Per-property configuration for bin/check: one json file per property under bin/checks.d/."""
+import glob, json, os
 
-FS_TRUST = "os.ReadDir/Remove/Stat behave as POSIX readdir/unlink/rmdir and succeed (except removing a non-empty directory)"
 COMMON = [
     "Lean 4.33 kernel (theorems re-checked by `lake build` on every run; leanchecker in the thorough tier)",
     "hand-written Lean model, tied to the Go code by the correspondence run of this check and by tables regenerated from source (tools/extract)",
-    "the Go harness, canonicaliser and oracles under /verif/harness; the Go toolchain",
+    "the Go harness, canonicaliser and oracles under /verif/harness; the Go toolchain"
 ]
 
-CHECKS = {
-    "C20": {
-        "lean_modules": ["Restli.Props.C20"],
-        "modules": ["v2", "root"],
-        "level": "proof",
-        "fingerprint_prefixes": ["v2/codegen/utils:CleanTargetDir", "codegen/utils:CleanTargetDir"],
-        "trusted_base": COMMON + [FS_TRUST],
-    },
-}
+CHECKS = {}
+for _p in sorted(glob.glob(os.path.join(os.path.dirname(os.path.abspath(__file__)), "checks.d", "*.json"))):
+    _c = json.load(open(_p))
+    _c["trusted_base"] = COMMON + _c.get("trusted_base", [])
+    CHECKS[os.path.basename(_p)[:-5]] = _c
